@@ -201,7 +201,7 @@ class Report:
                 load = 0.0
             self.patience['load'] = round(load, 1)
             base0 = self._baseline()
-            base_names0 = set(base0['discharged']) if base0 else set()
+            base_names0 = (set(base0['discharged']) | set(base0.get('discharged_thorough', {}))) if base0 else set()
             slow = [uid for uid, r in results.items() if r['status'] in ('unknown', 'timeout') and meta[uid]['base'] in base_names0]
             if slow and load > 0.5 * (os.cpu_count() or 16):
                 self.patience['retried'] = len(slow)
@@ -276,7 +276,10 @@ class Report:
         mod = self.mod
         prop = self.prop
         base = self._baseline()
-        base_names = set(base['discharged']) if base else None
+        # the quick and the thorough tier have their own lists (the thorough tier adds units); an obligation either list discharges is protected
+        base_names = (set(base['discharged']) | set(base.get('discharged_thorough', {}))) if base else None
+        tier_key = 'discharged' if self.tier == 'quick' else 'discharged_thorough'
+        tier_names = set(base[tier_key]) if (base and tier_key in base) else None
         rows = self.prove_rows
         n_obl = len(rows)
         n_dis = sum(1 for r in rows if r['status'] == 'unsat')
@@ -339,9 +342,9 @@ class Report:
                 viols.extend(pending_refusals)
 
         # 3. baseline drift: obligations that used to exist and are gone
-        if base_names is not None and rows:
+        if tier_names is not None and rows:
             now = set(r['base'] for r in rows)
-            for b in sorted(base_names - now):
+            for b in sorted(tier_names - now):
                 undecided.append((b, 'obligation of the committed baseline was not generated on this run'))
 
         # known findings
@@ -388,9 +391,11 @@ class Report:
         if self.canaries[1] and code == 0:
             print('CHECKER-ERROR property=%s vacuous path conditions: %s' % (prop, self.canaries[1][:5]))
             code = 3
-        if self.refute_error and code == 0:
+        if self.refute_error:
+            # (always shown: next to a violation it tells that the bounded stand-in did not finish its scopes)
             print('CHECKER-ERROR property=%s bounded stand-in crashed:\n%s' % (prop, self.refute_error))
-            code = 3
+            if code == 0:
+                code = 3
         if code == 0 and undecided and not self.refute_ran and n_dis == 0:
             code = 2
 
@@ -403,7 +408,13 @@ class Report:
             notall = set(r['base'] for r in rows if r['status'] != 'unsat')
             for b in notall:
                 names.pop(b, None)
-            json.dump({'property': prop, 'discharged': names}, open(os.path.join(self.root, 'baseline', prop + '.json'), 'w'), indent=1, sort_keys=True)
+            if tier_names is not None:
+                for b in sorted(tier_names - set(names)):       # make a protected obligation that silently disappears from the list visible
+                    print('BASELINE-DROPPED property=%s tier=%s obligation=%s (was protected, is no longer generated / discharged)' % (prop, self.tier, b))
+            out = dict(base) if base else {'property': prop, 'discharged': {}}
+            out['property'] = prop
+            out[tier_key] = names
+            json.dump(out, open(os.path.join(self.root, 'baseline', prop + '.json'), 'w'), indent=1, sort_keys=True)
 
         if not self.selftest:
             self._evidence(code, n_obl, n_dis, undecided, new_viol, wall, known)
